@@ -52,5 +52,15 @@ CLAIMED = {
          "acquire (either form) races 0..2 whole FIFO release() calls injected by the solver before/after each of its atomic loads and stores.",
     note="Sequential consistency assumed (no C11 memory model in CBMC): a weakened memory_order is not detectable. Single acquirer, FIFO releaser (documented usage).",
     technique="CBMC bounded symbolic execution; one-step induction over a head/tail state invariant; thread interleavings sequentialised at atomic accesses with solver-chosen schedule"),
+ "C05": dict(
+    text="Base64: for every input of n bytes (portable n<=7 quick / 26 thorough; AVX2 n up to 46 quick / 50 thorough, all bytes symbolic) the "
+         "encoder output equals an independent RFC 4648 reference byte for byte, the predicted length is exact (length functions for ALL 64-bit n), "
+         "capacity exact/one-short/pre-filled handled, decode(encode(x)) == x on both CPU paths; for ARBITRARY text (<= 36 chars quick) the "
+         "portable and vectorised decoders give the same verdict and bytes as a strict canonical model and never report more bytes than written "
+         "(symbolic canary). Hex: lowercase, exact length, odd-length decode, round trip. UTF-8: verdict and reported code points independent of "
+         "two symbolic split points. The AVX2 file is executed through lane-wise C models of its 20 intrinsics, validated against the CPU on every run.",
+    note="SIMD models trusted after differential validation (20000 vectors per intrinsic per run); has_avx2() stubbed to select the path; "
+         "lengths beyond the bounds are not claimed. Two genuine defects found and repaired by fix: commits (known_findings.txt).",
+    technique="CBMC bounded symbolic execution of encoding.c and encoding_avx2.c (SIMD intrinsics replaced by validated lane models), differential against a reference codec"),
 }
 NOT_APPLICABLE = {p: PENDING for p in ["C%02d" % i for i in range(1, 21)]}
